@@ -514,8 +514,9 @@ def replay(w: Workload, case: dict):
     model = gen_model(tree["idx"], tree["seed"])
     fails, stats = [], new_stats()
     check_model(model, fails, stats, subprocess_cli=case["input"].get("via") == "subprocess")
+    want = {k: case["input"][k] for k in ("events_file", "sidecar", "check_for_warnings", "format") if k in case["input"]}
     for f in fails:
-        if f[0] == case["clause"]:
+        if f[0] == case["clause"] and all(f[1].get(k) == v for k, v in want.items()):
             w.fail(f[0], f[1], f[2], f[3])
 
 
